@@ -25,27 +25,41 @@ from harness.core import Failure, Family, Support, drive
 LEAN_MODULES = ["DxModel.Props.C01"]
 GENERATED = []
 TRUSTED = [
-    "RulesSound is a hypothesis of the driver theorems: proven per rule family in C03/C04/C11/C06, all other rule classes (listed as unmodelled_rule_firings in the support distribution) are covered by the differential search only",
+    "RulesSound is a hypothesis of the general driver theorems. It is a THEOREM (C01_fragment_rules_sound, from the C04/C03 rule theorems) for the fragment of real classes of DxModel/Fragment.lean with the rule system fragRules; for every other rule class it is proven per rule family in C03/C04/C11/C06 in their own vocabulary, or (unmodelled_rule_firings in the support distribution) covered by the differential search only",
+    "fragment: the column-level interpretation `Interp` (what pandas does to the rows of a column: elementwise functions, masks, join row matching, stacking) is a parameter of the fragment theorems, constrained only by MaskLaws (`&`/`|` act row by row, a mask is determined by its truth values); labels/ndim (`schemaOf`) and the rule outputs are tied to the real classes by the family `fragment`",
+    "fragment: the abstraction of real expressions to model trees (harness/props/c01.py frag_abstract: class, operand order, column lists; operands the fragment's rules never read - npartitions, shuffle options of Merge - are dropped)",
     "identification of `_name` equality with structural equality of trees (property C08)",
     "optimize_blockwise_fusion is an abstract sound step of the pipeline model (property C14)",
-    "weak references in the dependents map are modelled as live (the T2 stubs are kept alive); the theorems quantify over arbitrary maps",
+    "weak references in the dependents map are modelled as live (the T2 stubs, and every expression created while a fragment query is simplified, are kept alive); the theorems quantify over arbitrary maps",
     "harness/e2e.py canonical comparison; the unoptimized plan (expr.lower_completely()) executed by dask's synchronous scheduler is the oracle",
 ]
 PARTIAL = [
     "rule results that are not expressions (`if not isinstance(out, Expr): return out`) are not modelled",
     "termination of the drivers is not claimed here (C19): fuel is explicit, 'Optimizer does not converge' is an outcome of the model",
-    "soundness of each concrete rule is outside C01's theorems (hypothesis RulesSound); the T3 trace says which firings belong to families with Lean soundness theorems",
+    "RulesSound is discharged (C01_fragment_rules_sound; C01_fragment_optimize_sound / _no_new_failure have no hypothesis on the rules) ONLY for the fragment: classes FromPandas, Projection (list and scalar), Abs/Neg/Pos/Invert, Binop with a python scalar on the right, Binop of two expressions over one frame (incl. And/Or of predicates), Assign, RenameFrame (dict), Filter, Merge on columns (inner/left/right/outer), Concat(axis=0, outer/inner); rules Projection._simplify_down, Assign._simplify_down, BlockwiseIO._simplify_up[Projection], plain_column_projection (Blockwise pass-through, Unaryop), Binop._simplify_up, Assign._simplify_up, RenameFrame._simplify_up, Filter._simplify_up (OR factoring for any parent; Projection branch), Merge._simplify_up[Projection], Concat._simplify_up. For every other class the soundness of each concrete rule stays the hypothesis RulesSound; the T3 trace says which firings belong to families with Lean soundness theorems",
+    "not in the fragment's rule system (the model returns none where the real rule may fire; the family's query generator avoids these shapes): squashing two consecutive Filters, Filter push-down into a Merge, the Projection branch of a Filter whose frame is a Filter or Merge (its guard needs is_filter_pushdown_available), Index parents; every _lower / _tune_* rule and blockwise fusion (fragRules has none: in the fragment theorems the stages after simplify are the identity)",
+    "side conditions that are part of the fragment's definedness (an expression violating them denotes nothing, decidable by fragWF = schemaOf defined; the theorems say nothing about it): labels duplicate-free and present; Binop of two frames only with equal label lists (open finding D39, C01_fragment_binop_labels_counterexample); Merge only when the join keys are columns, a key of one side does not collide with a non-key column of the other (open finding D34, C01_fragment_merge_collision_counterexample) and the result labels are duplicate-free; rename without label collisions; Assign values and Filter predicates are Series expressions; a row-wise Concat needs an input with columns, and with join='inner' every input must have columns (Concat._meta leaves inputs without columns out when it declares the labels, so dask-expr declares and computes the labels of the remaining inputs where pandas computes none)",
+    "the C04 value theorems for Merge (C04_merge_values_*_partial) are stated over the structure MergeOp, whose laws quantify over frames with colliding result labels and are only satisfiable by degenerate joins; the fragment proof uses C04_merge_wf, C04_merge_labels_partial and the lemmas behind the value theorems directly on the fragment's join. AssignOp.op_cols orders duplicate new keys by last occurrence, methods.assign by first occurrence: the fragment uses the real order (only the label order of an Assign with repeated keys differs)",
 ]
 EXPLANATION = (
     "Theorems: every driver (rewrite, simplify_once with its cache and bandaid-extended dependents map, simplify, lower_once, "
     "lower_completely, optimize_until at every stage) returns an expression denoting the same as its input, for all trees, all "
     "rule systems, all dependents maps, all fuel, up to any congruence; no new failure under partial semantics; deps-sensitive "
-    "variant on traced firings. Tie: the real drivers on table-driven stub classes == the model (result tree, firing trace with "
-    "the size of the dependents list seen, non-convergence), exhaustive small trees x enumerated/seeded rule tables. "
-    "Support: optimized plan at every stage == unoptimized plan on the vetted program space, both shuffle methods."
+    "variant on traced firings. For the fragment of real classes (DxModel/Fragment.lean: literal operands coded into the node "
+    "literal, partial denotation over abstract columns, rule system fragRules defined by the Dx.Cols / Dx.Pred rule functions) "
+    "RulesSound is proven from the C04/C03 theorems, so optimize/simplify/simplify_once preserve the denoted frame of every "
+    "well-formed fragment query with no hypothesis on the rules and for arbitrary dependents maps; concrete queries are optimized "
+    "by the kernel (projection through Assign/Merge/RenameFrame into the sources, a shared sub-expression, OR factoring). "
+    "Tie: the real drivers on table-driven stub classes == the model (result tree, firing trace with "
+    "the size of the dependents list seen, non-convergence), exhaustive small trees x enumerated/seeded rule tables; real "
+    "simplify() on real fragment queries == the model's simplify with fragRules on the abstracted query (exact tree), labels/ndim "
+    "of query and result == schemaOf. "
+    "Support: optimized plan at every stage == unoptimized plan on the vetted program space, both shuffle methods, and on the "
+    "fragment queries."
 )
 RULE = ("T2 inputs: rule table x tree (exhaustive up to a node bound, then seeded); non-trivial = at least one rule fired or the run "
-        "did not converge. Support: programs of harness/programs.py x layouts x shuffle method x stage.")
+        "did not converge. Fragment: hand-written + seeded random real queries of depth <= 4; non-trivial = simplify() rewrote the query. "
+        "Support: programs of harness/programs.py x layouts x shuffle method x stage, and the fragment queries.")
 
 
 # =========================================================================== T2: stub rule systems
@@ -997,6 +1011,8 @@ def run_case(case):
     -> {"status": ok|unsupported|fail, "stages": n, "fail": {...}}"""
     import dask
 
+    if "frag" in case:
+        return run_frag_case(case)
     p = by_name()[case["program"]]
     layout, method = case.get("layout", 0), case.get("method", "tasks")
     res = {"status": "ok", "stages": 0, "program": p.name}
@@ -1074,17 +1090,33 @@ def _run_case_safe(case):
     try:
         return run_case(case)
     except Exception:  # noqa: BLE001
-        return {"status": "harness-error", "program": case["program"], "why": traceback.format_exc()[-600:], "stages": 0}
+        return {"status": "harness-error", "program": case.get("program", case.get("frag")), "why": traceback.format_exc()[-600:], "stages": 0}
 
 
 _KNOWN_DIVISIONS_ONLY = {"x:add_repartitioned_proj", "x:add_repartitioned_col", "concat_parts_axis1", "concat_parts_axis0",
                          "add_parts_broadcast", "parts_of_elemwise"}  # alignment needs known divisions
 
 
+def _frag_support_cases(ctx, broken):
+    """the hand-written fragment queries always; when the fragment family disagrees, the disagreeing query first and
+    seeded random queries of the same generator"""
+    frag_broken = [b for b in broken if b.get("kind") == "correspondence" and str(b.get("family", "")).startswith("fragment")]
+    cases = []
+    for b in frag_broken:
+        q = (b.get("first") or {}).get("input") or {}
+        if isinstance(q, dict) and q.get("query"):
+            cases.append({"frag": q["query"], "stages": plans.STAGES})
+    cases += [{"frag": n, "stages": plans.STAGES if (frag_broken or not ctx.quick) else ["simplified-logical", "fused"]}
+              for n, _ in frag_fixed_queries()]
+    n_rand = (400 if frag_broken else 0) if ctx.quick else 1500
+    cases += [{"frag": f"seed{ctx.seed * 100003 + i}/d{1 + i % 4}", "stages": ["simplified-logical", "fused"]} for i in range(n_rand)]
+    return cases
+
+
 def support_cases(ctx, broken):
     names = by_name()
     must = [n for n in MUST if n in names and is_valid(names[n])] + [p.name for p in extra_programs()]
-    cases = []
+    cases = _frag_support_cases(ctx, broken)
     nl = len(plans.LAYOUTS)
     if ctx.quick:
         rng = random.Random(ctx.seed * 31 + 1)
@@ -1119,10 +1151,13 @@ def blame(case):
     rows) as the expression it replaced, both lowered without optimization -> 'Class._method[Parent]' or ''"""
     import dask
 
-    p = by_name()[case["program"]]
     with dask.config.set({"dataframe.shuffle.method": case.get("method", "tasks"), "scheduler": "sync"}):
         try:
-            q = build_query(p, case.get("layout", 0))
+            if "frag" in case:
+                _frag_sources()
+                q = frag_query_by_name(case["frag"])()
+            else:
+                q = build_query(by_name()[case["program"]], case.get("layout", 0))
         except Exception:  # noqa: BLE001
             return ""
         tr = FiringTracer(keep_examples=True)
@@ -1147,13 +1182,13 @@ def blame(case):
 
 def _signature(r, case):
     f = r["fail"]
-    fams = by_name()[case["program"]].families
+    fams = ("fragment",) if "frag" in case else by_name()[case["program"]].families
     try:
         rule = blame(case)
     except Exception:  # noqa: BLE001
         rule = ""
     return {"kind": f["kind"], "stage": f["stage"], "exc": f["exc"], "site": f["site"], "rule": rule,
-            "program": case["program"], "families": "/".join(fams)}
+            "program": case.get("program", "frag:" + str(case.get("frag"))), "families": "/".join(fams)}
 
 
 def support(ctx, broken):
@@ -1166,7 +1201,7 @@ def support(ctx, broken):
         sup.count("status:" + r["status"])
         if r["status"] in ("ok", "rescued", "fail"):
             sup.executed += max(r["stages"], 1)
-            sup.count("method:" + case["method"])
+            sup.count("method:" + case.get("method", "tasks"))
         if r["status"] == "harness-error":
             raise RuntimeError("C01 oracle crashed on " + repr(case) + "\n" + r["why"])
         if r["status"] == "fail":
@@ -1180,7 +1215,7 @@ def support(ctx, broken):
             sup.samples.append(case)
     # T3 distribution of rule firings (which rule classes the search exercised)
     try:
-        dist = traced_firings(ctx, [c["program"] for c in cases[: (260 if ctx.quick else 4000)]])
+        dist = traced_firings(ctx, [c["program"] for c in cases if "program" in c][: (260 if ctx.quick else 4000)])
         sup.distribution.update(dist)
     except Exception:  # noqa: BLE001
         sup.distribution["traced_firings_error"] = traceback.format_exc()[-400:]
@@ -1285,7 +1320,551 @@ def _exec_unoptimized(expr):
     return plans.finalize(e, parts)
 
 
+# =========================================================================== T2: the fragment of real classes
+#
+# DxModel/Fragment.lean instantiates the expression model with real classes (FromPandas, Projection, Abs/Neg/Pos/
+# Invert, Binop with a scalar, Binop of two expressions incl. And/Or, Assign, RenameFrame, Filter, Merge, row-wise
+# Concat) and defines `fragRules` from the rule functions of Dx.Cols / Dx.Pred.  Here REAL queries over these
+# classes are built through the public API, simplified by the REAL `Expr.simplify()`, and input and output are
+# abstracted to model trees; the model's `simplify fragRules` on the abstracted input must give exactly the
+# abstraction of the real output (classes, operand order, every column list).
+
+FRAG_FUEL = 60
+_FRAG_UN = {"Abs": 0, "Neg": 1, "Pos": 2, "Invert": 3}
+_FRAG_BIN = {"And": 0, "Or": 1, "Add": 2, "Sub": 3, "GT": 5, "LT": 6, "GE": 7, "LE": 8, "EQ": 9, "NE": 10}
+_FRAG_HOW = {"inner": 0, "left": 1, "right": 2, "outer": 3}
+_FRAG_CLS = ["FromPandas", "Projection", "Elemwise1", "BinopScalar", "Binop", "Assign", "RenameFrame", "Filter", "Merge", "Concat"]
+
+
+class OutOfFragment(Exception):
+    pass
+
+
+def frag_enc(sent):
+    """sentence (list of words = lists of naturals) -> the literal of the model node (Fragment.lean `encS`)"""
+    flat = []
+    for w in sent:
+        flat += [x + 1 for x in w] + [0]
+    n = 0
+    for a in reversed(flat):
+        n = (1 << a) * (2 * n + 1)
+    return n
+
+
+def frag_dec(n):
+    flat = []
+    while n:
+        a = (n & -n).bit_length() - 1
+        flat.append(a)
+        n >>= a + 1
+    sent, cur = [], []
+    for a in flat:
+        if a == 0:
+            sent.append(cur)
+            cur = []
+        else:
+            cur.append(a - 1)
+    if cur:
+        sent.append(cur)
+    return sent
+
+
+def _fw(name):
+    if not isinstance(name, str):
+        raise OutOfFragment(f"label {name!r}")
+    return [ord(ch) for ch in name]
+
+
+class _FragTables:
+    """table ids by identity of the pandas object behind a FromPandas"""
+
+    def __init__(self):
+        self.ids = {}
+
+    def tid(self, backend):
+        return self.ids.setdefault(id(backend._data), len(self.ids))
+
+
+def frag_abstract(e, reg):
+    """real expression -> model tree text `cls.lit(args)`; OutOfFragment for anything the fragment has no class for"""
+    from dask_expr import _expr as E
+    from dask_expr._concat import Concat
+    from dask_expr._merge import Merge
+    from dask_expr.io.io import FromPandas
+
+    def node(cls, sent, args):
+        head = f"{cls}.{frag_enc(sent)}"
+        return head if not args else head + "(" + ",".join(args) + ")"
+
+    t = type(e)
+    rec = lambda x: frag_abstract(x, reg)  # noqa: E731
+    if t is FromPandas:
+        if e.operand("_partitions") is not None or e.operand("_series"):
+            raise OutOfFragment("FromPandas partitions/_series")
+        full = [c for c in e.operand("frame")._data.columns]
+        cols = e.operand("columns")
+        sent = [[reg.tid(e.operand("frame"))], [len(full)]] + [_fw(c) for c in full]
+        sent += [[0]] if cols is None else [[1]] + [_fw(c) for c in cols]
+        return node(0, sent, [])
+    if t is E.Projection:
+        op = e.operand("columns")
+        if isinstance(op, list):
+            return node(1, [[1]] + [_fw(c) for c in op], [rec(e.frame)])
+        return node(1, [[0], _fw(op)], [rec(e.frame)])
+    if t.__name__ in _FRAG_UN and t in (E.Abs, E.Neg, E.Pos, E.Invert):
+        return node(2, [[_FRAG_UN[t.__name__]]], [rec(e.frame)])
+    if t.__name__ in _FRAG_BIN and getattr(E, t.__name__, None) is t:
+        l, r = e.left, e.right
+        code = _FRAG_BIN[t.__name__]
+        if isinstance(l, E.Expr) and isinstance(r, E.Expr):
+            return node(4, [[code]], [rec(l), rec(r)])
+        if isinstance(l, E.Expr) and type(r) is int and r >= 0:
+            return node(3, [[code], [r]], [rec(l)])
+        raise OutOfFragment("Binop operands")
+    if t is E.Assign:
+        if not all(isinstance(v, E.Expr) for v in e.vals):
+            raise OutOfFragment("Assign scalar")
+        return node(5, [_fw(k) for k in e.keys], [rec(e.frame)] + [rec(v) for v in e.vals])
+    if t is E.RenameFrame:
+        m = e.operand("columns")
+        if not isinstance(m, dict):
+            raise OutOfFragment("rename callable")
+        sent = []
+        for k, v in m.items():
+            sent += [_fw(k), _fw(v)]
+        return node(6, sent, [rec(e.frame)])
+    if t is E.Filter:
+        return node(7, [], [rec(e.frame), rec(e.predicate)])
+    if t is Merge:
+        if e.left_index or e.right_index or e.operand("indicator") or e.how not in _FRAG_HOW:
+            raise OutOfFragment("Merge kind")
+        lo = [e.left_on] if isinstance(e.left_on, str) else list(e.left_on)
+        ro = [e.right_on] if isinstance(e.right_on, str) else list(e.right_on)
+        sent = [[_FRAG_HOW[e.how]], [len(lo)], [len(ro)]] + [_fw(c) for c in lo] + [_fw(c) for c in ro]
+        sent += [_fw(e.suffixes[0]), _fw(e.suffixes[1])]
+        return node(8, sent, [rec(e.left), rec(e.right)])
+    if t is Concat:
+        if e.axis != 0 or e.join not in ("outer", "inner") or any(f.ndim != 2 for f in e._frames):
+            raise OutOfFragment("Concat kind")
+        return node(9, [[1 if e.join == "inner" else 0]], [rec(f) for f in e._frames])
+    raise OutOfFragment(t.__name__)
+
+
+def frag_pretty(text):
+    """model tree text -> readable form (for disagreement reports)"""
+    def name(w):
+        return "".join(chr(x) for x in w)
+
+    def lit(cls, n):
+        s = frag_dec(n)
+        try:
+            if cls == 0:
+                k = s[1][0]
+                full = [name(w) for w in s[2 : 2 + k]]
+                rest = s[2 + k :]
+                cols = None if rest == [[0]] else [name(w) for w in rest[1:]]
+                return f"T{s[0][0]}{full}" + ("" if cols is None else f"->{cols}")
+            if cls == 1:
+                return repr(name(s[1])) if s[0] == [0] else str([name(w) for w in s[1:]])
+            if cls in (2, 4):
+                return f"op{s[0][0]}"
+            if cls == 3:
+                return f"op{s[0][0]},{s[1][0]}"
+            if cls in (5, 6):
+                return str([name(w) for w in s])
+            if cls == 8:
+                nl, nr = s[1][0], s[2][0]
+                ws = [name(w) for w in s[3:]]
+                return f"how{s[0][0]} on={ws[:nl]}/{ws[nl:nl+nr]} sfx={ws[nl+nr:]}"
+            if cls == 9:
+                return "inner" if s == [[1]] else "outer"
+        except Exception:  # noqa: BLE001
+            pass
+        return "" if not s else str(s)
+
+    def go(t):
+        _, cls, l, args = t
+        head = (_FRAG_CLS[cls] if cls < len(_FRAG_CLS) else str(cls)) + "{" + lit(cls, l or 0) + "}"
+        return head if not args else head + "(" + ", ".join(go(a) for a in args) + ")"
+
+    try:
+        return go(parse_term(text))
+    except Exception:  # noqa: BLE001
+        return text[:300]
+
+
+class _KeepAlive:
+    """every expression created while the real driver runs stays alive: the weak references of the dependents
+    map are modelled as live (TRUSTED), so no rule may see a reference die in the middle of a pass"""
+
+    def __enter__(self):
+        from dask_expr import _core
+
+        self.core = _core
+        self.orig = _core.Expr.__new__
+        keep = self.keep = []
+        orig = self.orig
+
+        def _new(cls, *args, **kwargs):
+            inst = orig(cls, *args, **kwargs)
+            keep.append(inst)
+            return inst
+
+        _core.Expr.__new__ = _new
+        return self
+
+    def __exit__(self, *a):
+        self.core.Expr.__new__ = self.orig
+        self.keep = []
+
+
+# ---- real queries of the fragment
+
+
+def _frag_sources():
+    import dask_expr as dx
+    import numpy as np
+    import pandas as pd
+
+    if "src" not in _PQ:
+        n = 6
+        t0 = pd.DataFrame({"a": np.arange(n), "b": [3, 1, 2, 5, 4, 6], "c": [0, 1, 0, 1, 0, 1]})
+        t1 = pd.DataFrame({"b": [3, 1, 2, 5, 4, 6], "k": np.arange(n) * 2, "d": [1, 1, 2, 2, 3, 3]})
+        t2 = pd.DataFrame({"a": np.arange(n) + 10, "b": [1, 2, 3, 4, 5, 6], "e": [7, 8, 9, 7, 8, 9]})
+        _PQ["src"] = [dx.from_pandas(t, npartitions=2) for t in (t0, t1, t2)]
+    return _PQ["src"]
+
+
+def _frag_blocked(e):
+    """a Filter above this frame could reach a Filter / Merge through Projections and Assigns (which projection
+    push-down may remove): the squash rule / the Merge filter rule could fire — outside the fragment"""
+    from dask_expr import _expr as E
+    from dask_expr._merge import Merge
+
+    while isinstance(e, (E.Projection, E.Assign)):
+        e = e.frame
+    return isinstance(e, (E.Filter, Merge))
+
+
+def _frag_pred(rng, x, shape):
+    cols = list(x.columns)
+    c = lambda: x[rng.choice(cols)]  # noqa: E731
+    p = c() > rng.randrange(0, 4)
+    if shape == "and":
+        return p & (c() < rng.randrange(2, 9))
+    if shape == "or":
+        return p | (c() < rng.randrange(2, 9))
+    if shape == "or_common":  # (p & q) | (p & r): rewrite_filters factors p out
+        return (p & (c() < rng.randrange(2, 9))) | (p & (c() > rng.randrange(0, 4)))
+    if shape == "or_absorb":  # (p & q) | p
+        return (p & (c() < rng.randrange(2, 9))) | p
+    return p
+
+
+_FRAG_OPS = ["proj", "proj", "abs", "neg", "addk", "assign_new", "assign_over", "assign_two", "assign_base", "rename", "filter",
+             "filter_and", "filter_or", "filter_or_common", "filter_or_absorb", "binop_abs", "binop_addk", "binop_proj", "merge",
+             "merge_other_key", "concat", "concat_inner", "concat_self", "share2"]
+
+
+def _frag_sub(rng, cols, allow_empty=False):
+    k = rng.randrange(0 if allow_empty else 1, len(cols) + 1)
+    sub = rng.sample(cols, k)
+    if rng.random() < 0.4:
+        sub = [c for c in cols if c in sub]  # input order: the parent projection can be dropped
+    return sub
+
+
+def frag_apply(rng, op, x, depth, mk):
+    """one operator of the fragment on the frame collection x; `mk(depth)` builds an independent frame"""
+    import dask_expr as dx
+
+    cols = list(x.columns)
+    if op == "proj":
+        return x[_frag_sub(rng, cols)]
+    if op == "abs":
+        return x.abs()
+    if op == "neg":
+        return -x
+    if op == "addk":
+        return x + rng.randrange(1, 4)
+    if op == "assign_new":
+        return x.assign(z=x[rng.choice(cols)] + 1)
+    if op == "assign_over":
+        return x.assign(**{rng.choice(cols): x[rng.choice(cols)] + 2})
+    if op == "assign_two":
+        return x.assign(z=x[rng.choice(cols)] + 1, y=x[rng.choice(cols)].abs())
+    if op == "assign_base":  # the value reads the source below x, not x itself
+        base = [s for s in _frag_sources() if any(n._name == s.expr._name for n in x.expr.walk())]
+        if not base:
+            return x.assign(z=x[cols[0]] + 1)
+        b = base[0]
+        return x.assign(w=b[rng.choice(list(b.columns))] + 1)
+    if op == "rename":
+        c = rng.choice(cols)
+        m = {c: c.upper() + "1"}
+        if rng.random() < 0.3:
+            m["nope"] = rng.choice([x for x in cols if x != c] or ["Q"])  # a key that is not a column, renamed to a label that exists (D21)
+        return x.rename(columns=m)
+    if op.startswith("filter"):
+        if _frag_blocked(x.expr):
+            return x.abs()
+        shape = op[7:] if len(op) > 6 else "plain"
+        return x[_frag_pred(rng, x, shape)]
+    if op == "binop_abs":
+        return x + x.abs()
+    if op == "binop_addk":
+        return (x + 1) - x
+    if op == "binop_proj":
+        sub = _frag_sub(rng, cols)
+        return x[sub] + x[sub].abs()
+    if op in ("merge", "merge_other_key"):
+        y = mk(max(depth - 2, 0))
+        common = [c for c in cols if c in list(y.columns)]
+        if not common:
+            return x.abs()
+        how = rng.choice(["inner", "left", "right", "outer"])
+        if op == "merge" or len(cols) < 2:
+            return x.merge(y, on=rng.choice(common), how=how)
+        return x.merge(y, on=common[:2], how=how) if len(common) > 1 else x.merge(y, on=common[0], how=how, suffixes=("_l", "_r"))
+    if op.startswith("concat"):
+        y = x[_frag_sub(rng, cols)] if op == "concat_self" else mk(max(depth - 2, 0))
+        return dx.concat([x, y], join="inner" if op == "concat_inner" else "outer")
+    if op == "share2":  # x consumed twice by different operators
+        sub = _frag_sub(rng, cols)
+        return x[sub] + (-x)[sub]
+    raise ValueError(op)
+
+
+def frag_random_query(rng, depth):
+    srcs = _frag_sources()
+
+    def mk(d):
+        x = rng.choice(srcs)
+        for _ in range(d):
+            x = frag_apply(rng, rng.choice(_FRAG_OPS), x, d, mk)
+        return x
+
+    x = mk(depth)
+    r = rng.random()
+    cols = list(x.columns)
+    if r < 0.45:
+        return x[_frag_sub(rng, cols)]
+    if r < 0.6:
+        return x[rng.choice(cols)]
+    return x
+
+
+def frag_fixed_queries():
+    """hand-written queries: every rule of the fragment, shared sub-expressions, the shapes of fixed defects"""
+    import dask_expr as dx
+
+    df, d1, d2 = _frag_sources()
+    return [
+        ("proj_abs", lambda: df.abs()[["b"]]),
+        ("proj_abs_scalar", lambda: df.abs()["b"]),
+        ("proj_neg_reorder", lambda: (-df)[["c", "a"]]),
+        ("proj_addk", lambda: (df + 1)[["b", "a"]]),
+        ("proj_proj", lambda: df[["a", "b", "c"]][["b", "a"]]["a"]),
+        ("proj_identity", lambda: df[["a", "b", "c"]]),
+        ("proj_assign", lambda: df.assign(z=df.a + 1)[["z", "b"]]),
+        ("proj_assign_gone", lambda: df.assign(z=df.a + 1)[["b"]]),
+        ("proj_assign_over", lambda: df.assign(a=df.b + 1)[["a", "c"]]),
+        ("assign_nested", lambda: df.assign(z=df.a + 1).assign(y=df.b + 1)[["y"]]),
+        ("assign_nested_uses_created", lambda: (lambda x: x.assign(y=x.z + 1))(df.assign(z=df.a + 1))[["y", "a"]]),
+        ("rename", lambda: df.rename(columns={"a": "A"})[["A", "c"]]),
+        ("rename_swap", lambda: df.rename(columns={"a": "b", "b": "a"})[["a"]]),
+        ("rename_missing_key", lambda: df.rename(columns={"zz": "b2", "a": "A"})[["A"]]),
+        ("rename_missing_key_to_existing", lambda: df.rename(columns={"zz": "b", "a": "A"})[["b", "A"]]),
+        ("rename_twice", lambda: df.rename(columns={"a": "A"}).rename(columns={"a": "A"})["A"]),
+        ("filter_proj", lambda: df[df.a > 2][["b"]]),
+        ("filter_proj_keep", lambda: df[df.a > 2][["c", "b"]]),
+        ("filter_scalar", lambda: df[df.a > 2]["b"]),
+        ("filter_or_common", lambda: df[((df.a > 2) & (df.b > 1)) | ((df.a > 2) & (df.c > 0))][["b"]]),
+        ("filter_or_absorb", lambda: df[((df.a > 2) & (df.b > 1)) | (df.a > 2)]),
+        ("filter_or_in_binop", lambda: (lambda f: f + f.abs())(df[((df.a > 2) & (df.b > 1)) | ((df.a > 2) & (df.c > 0))])),
+        ("filter_or_second_operand", lambda: dx.concat([df, df[((df.a > 2) & (df.b > 1)) | ((df.a > 2) & (df.c > 0))]])),
+        ("binop", lambda: (df + df.abs())[["a"]]),
+        ("binop_scalar_parent", lambda: (df + df.abs())["a"]),
+        ("binop_series", lambda: df.assign(z=df.a + df.b)[["z"]]),
+        ("merge", lambda: df.merge(d1, on="b")[["a", "d"]]),
+        ("merge_sfx_both", lambda: df.merge(d2, on="b")[["a_x", "a_y"]]),
+        ("merge_sfx_one", lambda: df.merge(d2, on="b", how="left")["a_y"]),
+        ("merge_two_keys", lambda: df.merge(d2, on=["a", "b"], how="outer")[["e"]]),
+        ("merge_abs", lambda: df.merge(d1, on="b").abs()[["k"]]),
+        ("concat", lambda: dx.concat([df, d1])[["b"]]),
+        ("concat_disjoint", lambda: dx.concat([df[["a", "b"]], d1[["k", "d"]]])[["a"]]),
+        ("concat_inner", lambda: dx.concat([df, d2], join="inner")[["b"]]),
+        ("concat_keep", lambda: dx.concat([df, d1])[["d", "a"]]),
+        ("concat_scalar", lambda: dx.concat([df, d1])["b"]),
+        ("shared_two_consumers", lambda: (lambda x: x[["a"]] + x[["a"]].abs())(df.assign(z=df.b + 1))),
+        ("shared_filter_pred", lambda: (lambda x: x[x.a > 2][["b"]])(df.assign(z=df.a + 1))),
+        ("shared_source_three", lambda: df.assign(z=df.a + 1, y=df.b.abs())[["z", "y", "c"]]),
+        ("empty_projection", lambda: df.assign(z=df.a + 1)[["z"]]),
+        ("assign_dup_keys_order", lambda: df.assign(z=df.a + 1, y=df.b + 1).assign(z=df.a + 5)),
+        ("assign_dup_keys_proj", lambda: df.assign(z=df.a + 1, y=df.b + 1).assign(z=df.a + 5)[["y", "z"]]),
+        ("assign_triple", lambda: df.assign(z=df.a + 1).assign(y=df.b + 1).assign(w=df.c + 1)[["w", "z", "a"]]),
+        ("assign_over_then_proj_other", lambda: df.assign(a=df.b + 1, z=df.c + 1)[["b", "z"]]),
+        ("rename_then_assign", lambda: (lambda x: x.assign(z=x.A + 1))(df.rename(columns={"a": "A"}))[["z", "c"]]),
+        ("filter_and_proj_all", lambda: df[(df.a > 1) & (df.b < 5)][["a", "b", "c"]]),
+        ("filter_assign_value", lambda: (lambda x: x.assign(z=x.a + 1)[["z"]])(df[df.b > 1])),
+        ("merge_left_on_right_on", lambda: df.merge(d1.rename(columns={"b": "bb"}), left_on="b", right_on="bb")[["a", "k", "bb"]]),
+        ("merge_self_suffix", lambda: df.merge(df.abs(), on="a")[["b_x", "c_y"]]),
+        ("concat_three", lambda: dx.concat([df, d1, d2])[["e", "b"]]),
+        ("concat_of_filters", lambda: dx.concat([df[df.a > 1], d2[d2.e > 7]])[["a"]]),
+        ("binop_of_merges", lambda: (lambda m: m[["a", "d"]] + m[["a", "d"]].abs())(df.merge(d1, on="b"))),
+    ]
+
+
+def _frag_schema_of(e):
+    try:
+        return f"cols={','.join(e.columns) if e.columns else '-'} ser={1 if e.ndim == 1 else 0}"
+    except Exception:  # noqa: BLE001
+        return "NONE"
+
+
+def _frag_case(item):
+    """one real query -> (name, abstracted input, abstracted real output | tag, real schema of input, of output)"""
+    name, q = item
+    reg = _FragTables()
+    try:
+        e = q().expr
+        inp = frag_abstract(e, reg)
+    except OutOfFragment as ex:
+        return name, None, f"outside:{ex}", None, None
+    except Exception as ex:  # noqa: BLE001  a query the API itself refuses
+        return name, None, f"invalid:{type(ex).__name__}", None, None
+    sch, osch = _frag_schema_of(e), "-"
+    with _KeepAlive():
+        try:
+            out = e.simplify()
+            got = "OK " + frag_abstract(out, reg)
+            osch = _frag_schema_of(out)
+        except OutOfFragment as ex:
+            got = f"OUTSIDE {ex}"
+        except RuntimeError as ex:
+            got = "ERR nonconverge" if "does not converge" in str(ex) else f"EXC RuntimeError {str(ex)[:80]}"
+        except Exception as ex:  # noqa: BLE001
+            got = f"EXC {type(ex).__name__} {str(ex)[:80]}"
+    return name, inp, got, sch, osch
+
+
+def _frag_run_seed(args):
+    seed, depth = args
+    rng = random.Random(seed)
+    holder = {}
+
+    def q():
+        if "q" not in holder:
+            holder["q"] = frag_random_query(rng, depth)
+        return holder["q"]
+
+    return _frag_case((f"seed{seed}/d{depth}", q))
+
+
+def frag_query_by_name(name):
+    """'seed<k>/d<depth>' or the name of a hand-written query -> zero-argument builder of the collection"""
+    if name.startswith("seed"):
+        seed, depth = name[4:].split("/d")
+        return lambda: frag_random_query(random.Random(int(seed)), int(depth))
+    for n, q in frag_fixed_queries():
+        if n == name:
+            return q
+    raise KeyError(name)
+
+
+def _frag_has_unordered(e):
+    """a join leaves row order and index unspecified"""
+    return any(type(n).__name__ in ("Merge",) for n in e.walk())
+
+
+def run_frag_case(case):
+    """end to end for one query of the fragment: the plan of every requested stage computes the same as the query
+    lowered without optimization -> same result dict as run_case"""
+    import dask
+    from dask_expr._expr import optimize_until
+
+    name = case["frag"]
+    res = {"status": "ok", "stages": 0, "program": "frag:" + name}
+    _frag_sources()
+    with dask.config.set({"dataframe.shuffle.method": case.get("method", "tasks"), "scheduler": "sync"}):
+        try:
+            expr = frag_query_by_name(name)().expr
+        except Exception as ex:  # noqa: BLE001
+            res.update(status="unsupported", why=f"build: {type(ex).__name__}")
+            return res
+        try:
+            want = _exec_unoptimized(expr)
+        except Exception as ex:  # noqa: BLE001
+            res.update(status="unsupported", why=f"unoptimized raises {type(ex).__name__}")
+            return res
+        loose = _frag_has_unordered(expr)
+        for st in case.get("stages", ["simplified-logical", "fused"]):
+            try:
+                e = optimize_until(expr, st)
+                if st in ("simplified-logical", "tuned-logical"):
+                    e = e.lower_completely()
+                _, _, parts = plans.execute(e)
+                got = plans.finalize(e, parts)
+            except Exception as ex:  # noqa: BLE001
+                tb = traceback.format_exc()
+                res.update(status="fail", fail={
+                    "kind": "raises", "stage": st, "exc": type(ex).__name__, "site": _site(tb),
+                    "detail": f"stage {st}: optimized plan raises {type(ex).__name__}: {str(ex)[:200]} (unoptimized plan succeeds)"})
+                return res
+            res["stages"] += 1
+            if not e2e.same(got, want, sort_rows=loose, drop_index=loose):
+                res.update(status="fail", fail={
+                    "kind": "differs", "stage": st, "exc": "", "site": "",
+                    "detail": f"stage {st}: optimized plan computes\n{e2e.describe(got)}\nunoptimized plan computes\n{e2e.describe(want)}"})
+                return res
+    return res
+
+
+def fam_fragment(ctx):
+    """T2: the real `simplify()` on real queries of the fragment == the model's `simplify fragRules` on the abstracted
+    query (exact tree equality), and the model's schema (`schemaOf`) of the query and of the result == the real
+    `columns` / `ndim`."""
+    f = Family("fragment[real simplify() on FromPandas/Projection/Elemwise/Binop/Assign/RenameFrame/Filter/Merge/Concat queries]")
+    _frag_sources()
+    cases = [_frag_case(it) for it in frag_fixed_queries()]
+    n_rand = 260 if ctx.quick else 6000
+    seeds = [(ctx.seed * 100003 + i, 1 + i % 4) for i in range(n_rand)]
+    cases += _pmap(_frag_run_seed, seeds, chunksize=16)
+    stats = collections.Counter()
+    use = []
+    for name, inp, got, sch, osch in cases:
+        if inp is None:
+            stats[got.split(":")[0]] += 1
+            continue
+        use.append((name, inp, got, sch, osch))
+    schemas = drive([f"driver frag_schema tree={c[1]}" for c in use])
+    # queries whose model denotation is undefined (side conditions of the fragment: key collisions of a merge,
+    # duplicate labels, binop operands with different columns) are outside the theorem and outside the family
+    keep = [(c, ms) for c, ms in zip(use, schemas) if ms != "NONE"]
+    stats["not_wellformed_in_model"] = len(use) - len(keep)
+    model = drive([f"driver frag_simplify tree={c[1]} fuel={FRAG_FUEL}" for c, _ in keep])
+    # labels / ndim the model declares for ITS output (compared with the real output's columns / ndim)
+    mout = drive([f"driver frag_schema tree={m[3:]}" if m.startswith("OK ") else "ping" for m in model])
+    inputs, code, mod, nontriv = [], [], [], []
+    classes = collections.Counter()
+    for (c, ms), m, mo in zip(keep, model, mout):
+        name, inp, got, sch, osch = c
+        inputs.append({"query": name, "tree": frag_pretty(inp)})
+        code.append((got if not got.startswith("OK ") else "OK " + frag_pretty(got[3:])) + " | " + sch + " | " + osch)
+        mod.append((m if not m.startswith("OK ") else "OK " + frag_pretty(m[3:])) + " | " + ms + " | " + (mo if m.startswith("OK ") else "-"))
+        nontriv.append(got != "OK " + inp)
+        stats["rewritten" if got != "OK " + inp else "unchanged"] += 1
+        for tok in inp.replace("(", ",").replace(")", ",").split(","):
+            if "." in tok:
+                classes[_FRAG_CLS[int(tok.split(".")[0])]] += 1
+    f.compare(inputs, code, mod, nontriv)
+    stats["nodes_by_class"] = dict(classes)
+    f.note = (f"{len(frag_fixed_queries())} hand-written + {n_rand} seeded random queries of depth <= 4 (with shared sub-expressions); "
+              f"{dict(stats)}; model fuel {FRAG_FUEL}")
+    return f
+
+
 def families(ctx):
     global _TIER
     _TIER = ctx.tier
-    return [fam_drivers, fam_collect, fam_firings]
+    return [fam_drivers, fam_collect, fam_firings, fam_fragment]
